@@ -343,6 +343,7 @@ fn collect_delete_targets_from_value(
 
 fn ensure_non_detach_delete_safety<S: GraphSnapshot>(
     snapshot: &S,
+    txn: &dyn WriteableGraph,
     detach: bool,
     nodes_to_delete: &[InternalNodeId],
     explicit_edges: &std::collections::HashSet<EdgeKey>,
@@ -359,6 +360,8 @@ fn ensure_non_detach_delete_safety<S: GraphSnapshot>(
         for edge in snapshot.incoming_neighbors(node_id, None) {
             attached.insert(edge);
         }
+        // Relationships created earlier in the same statement or transaction count as well.
+        attached.extend(txn.pending_relationships_of(node_id));
         for edge in attached {
             if !explicit_edges.contains(&edge) {
                 return Err(Error::Other(
@@ -404,7 +407,7 @@ pub(super) fn execute_delete_on_rows<S: GraphSnapshot>(
         }
     }
 
-    ensure_non_detach_delete_safety(snapshot, detach, &nodes_to_delete, &seen_edges)?;
+    ensure_non_detach_delete_safety(snapshot, &*txn, detach, &nodes_to_delete, &seen_edges)?;
 
     if detach {
         let mut detached_edges: std::collections::HashSet<EdgeKey> =
@@ -417,6 +420,12 @@ pub(super) fn execute_delete_on_rows<S: GraphSnapshot>(
                 }
             }
             for edge in snapshot.incoming_neighbors(node_id, None) {
+                if detached_edges.insert(edge) {
+                    txn.tombstone_edge(edge.src, edge.rel, edge.dst)?;
+                    deleted_count += 1;
+                }
+            }
+            for edge in txn.pending_relationships_of(node_id) {
                 if detached_edges.insert(edge) {
                     txn.tombstone_edge(edge.src, edge.rel, edge.dst)?;
                     deleted_count += 1;
@@ -543,7 +552,7 @@ pub(super) fn execute_delete<S: GraphSnapshot>(
         }
     }
 
-    ensure_non_detach_delete_safety(snapshot, detach, &nodes_to_delete, &seen_edges)?;
+    ensure_non_detach_delete_safety(snapshot, &*txn, detach, &nodes_to_delete, &seen_edges)?;
 
     // If detach=true, delete all edges connected to nodes being deleted
     if detach {
@@ -558,6 +567,12 @@ pub(super) fn execute_delete<S: GraphSnapshot>(
                 }
             }
             for edge in snapshot.incoming_neighbors(node_id, None) {
+                if detached_edges.insert(edge) {
+                    txn.tombstone_edge(edge.src, edge.rel, edge.dst)?;
+                    deleted_count += 1;
+                }
+            }
+            for edge in txn.pending_relationships_of(node_id) {
                 if detached_edges.insert(edge) {
                     txn.tombstone_edge(edge.src, edge.rel, edge.dst)?;
                     deleted_count += 1;
